@@ -344,7 +344,10 @@ func lexComment(l *lexer) stateFn {
 		return lexEOF
 	}
 
-	for unicode.IsSpace(rune(l.input[l.pos+i-1])) {
+	// Leave trailing blanks to the interrupted state. Only single-byte
+	// whitespace is trimmed: the last byte of a multi-byte UTF-8 character
+	// (e.g. 0xA0 of 'à') must stay inside the comment.
+	for strings.IndexByte(" \t\r", l.input[l.pos+i-1]) >= 0 {
 		i -= 1
 	}
 	l.pos += i
